@@ -215,6 +215,21 @@ def build(rng, gen, family):
                 tmpl = rng.choice(CALLS)
                 b.add(tmpl % {"ac": rng.choice(inst.acs)["id"]}, "call")
         b.adv(rng.choice([2401, 5000]))
+    elif family == "reinit":
+        # a session, shutdown(), a later init() on the same object: refresh and (AirTouch 4) the silence poll must work as on a fresh object
+        if rng.random() < 0.5:
+            b.adv(rng.choice([10, 1000, 2600]))
+        b.add("shutdown", "shutdown")
+        if rng.random() < 0.5:
+            b.adv(rng.choice([1, 100, 3000]))
+        b.change_console()
+        b.handshake()
+        b.subscribe()
+        for _ in range(rng.randint(1, 3)):
+            b.adv(rng.choice([1000, 2401, 2500, 5000]))
+        if rng.random() < 0.6:
+            b.outage(rng.choice([0, 80, 2600]), change=rng.random() < 0.5, answer="both")
+            b.adv(rng.choice([100, 2500]))
     elif family == "silence-and-outage":
         for _ in range(rng.randint(1, 3)):
             b.adv(rng.choice([10, 1000, 2000, 2399, 2500, 5000]))
@@ -314,6 +329,9 @@ def judge(sc, outs, kinds, readings, fresh_views):
                 initialised = any(ln == "RESULT init True" for ln in lines)
                 if not initialised:
                     return [("setup", i, "the scripted console did not initialise the client")]
+        elif role[0] == "shutdown":
+            connected = initialised = False
+            last_gs = up_since = last_req_hi = view_before_loss = None
         elif role[0] == "conn0":
             connected = False
         elif role[0] == "conn1":
@@ -465,7 +483,7 @@ def evaluate(ctx, sc, res=None):
 
 
 # ------------------------------------------------------------------------------------------------ run
-FAMILIES = [("reconnect", 10), ("unchanged-refresh", 3), ("silence", 5), ("silence-and-outage", 5)]
+FAMILIES = [("reconnect", 10), ("unchanged-refresh", 3), ("silence", 5), ("silence-and-outage", 5), ("reinit", 3)]
 
 
 def run(ctx, deep=False):
